@@ -1,5 +1,177 @@
-import PprofVerif.Model.Stacks
-import PprofVerif.Spec.Stacks
+import PprofVerif.Lemmas.StacksBuild
+import PprofVerif.Lemmas.StacksValid
+import PprofVerif.Lemmas.StacksExample
+/-!
+# C17 — flame-graph stack data is a faithful, self-consistent index of samples
+
+Property theorems only (helper lemmas: `Lemmas/Stacks{Frames,Intern,Loop,Places,Build,Valid}.lean`).
+They are about `PV.Stacks.stacks p idx`, the executable model of
+`report.New(p, {SampleValue: v[idx]}).Stacks()` (Model/Stacks.lean), which the correspondence check
+ties to internal/report/stacks.go on every run, and they quantify over ALL profiles: each theorem
+assumes only that the model run succeeded (`stacks p idx = .ok ss`), which `stacks_never_panic`
+shows for every valid profile.  "The sample's frames" are `Spec.sampleFrames` (Spec/Stacks.lean):
+the lines of the sample's locations, caller first, every line but the last of its location
+flagged as inlined; a location without lines contributes no frame.
+-/
 namespace PV.Props.C17
 open PV PV.Stacks
+
+/-- On a valid profile (CheckValid + references inside the tables) and a sample index inside the
+sample types, no index expression of `Stacks()` is out of range and no pointer is nil. -/
+theorem stacks_never_panic (p : Profile) (idx : Nat) (hv : p.Valid) (hi : idx < p.sampleType.length) :
+    ∃ ss, stacks p idx = .ok ss := by
+  obtain ⟨rs, hr⟩ := valid_resolve p idx hv hi
+  obtain ⟨st, _, hb⟩ := build_spec (computeTotal ((rs.zip p.samples).map fun x => (x.1.1, diffBase x.2))) rs
+  exact ⟨_, by simp only [stacks, hr, bind, Outcome.bind]; exact hb⟩
+
+-- non-vacuity: `exProfile` (main → [f ⊃ inlined g] → [f ⊃ inlined g], a location without lines, an
+-- empty stack) is valid, so every theorem below applies to it with `idx = 0`; its first stack is
+-- recursive and the place lists show the outermost occurrence only.
+example : exProfile.Valid ∧ 0 < exProfile.sampleType.length := by decide
+example : (match stacks exProfile 0 with
+    | .ok ss => (ss.stacks.elems.map (·.sources.elems), ss.sources.elems.map (·.places.elems),
+                 ss.sources.elems.map (·.self), ss.sources.elems.map (·.inlined))
+    | _ => ([], [], [], [])) =
+    ([[0, 1, 2, 3, 2, 3], [0], [0, 1]],
+     [[(0, 0), (1, 0), (2, 0)], [(0, 1), (2, 1)], [(0, 2)], [(0, 3)]],
+     [-2, 7, 0, 5], [false, false, false, true]) := by decide
+
+/-- One stack per sample, in sample order, carrying that sample's selected value. -/
+theorem stacks_one_per_sample (p : Profile) (idx : Nat) (ss : StackSet) (h : stacks p idx = .ok ss) :
+    ss.stacks.elems.length = p.samples.length ∧
+    ∀ i (hi : i < p.samples.length), ∃ st, ss.stacks.elems[i]? = some st ∧
+      p.samples[i].values[idx]? = some st.value := by
+  obtain ⟨rs, st, total, hres, _, rfl⟩ := stacks_ok h
+  obtain ⟨hlen, hat⟩ := resolve_at hres
+  refine ⟨by simp [result, Slice.lit, hlen], ?_⟩
+  intro i hi
+  obtain ⟨r, hr, hv, _⟩ := hat i hi
+  exact ⟨mkStack st.srcs r, by simp [result, Slice.lit, hr], hv⟩
+
+/-- Every stack is the synthetic root (index 0) followed by the sources of the sample's frames from
+caller to callee, for ONE map `src` from frame identities (function name, file name, line, column,
+inlined) to source indices; `src` never yields the root, the source it yields shows the frame's
+full name, trimmed file name and inlined flag, and two different identities never share a source. -/
+theorem stack_sources_eq_frames (p : Profile) (idx : Nat) (ss : StackSet) (h : stacks p idx = .ok ss) :
+    ∃ src : Key → Nat,
+      (∀ i (hi : i < p.samples.length), ∃ st fs, ss.stacks.elems[i]? = some st ∧
+          Spec.sampleFrames p p.samples[i] = some fs ∧
+          st.sources.elems = 0 :: fs.map (fun f => src f.key)) ∧
+      (∀ s ∈ p.samples, ∀ fs, Spec.sampleFrames p s = some fs → ∀ f ∈ fs,
+          1 ≤ src f.key ∧ ∃ so, ss.sources.elems[src f.key]? = some so ∧
+            so.fullName = f.key.fullName ∧ so.fileName = f.key.fileName ∧ so.inlined = f.inlined) ∧
+      (∀ s ∈ p.samples, ∀ s' ∈ p.samples, ∀ fs gs, Spec.sampleFrames p s = some fs →
+          Spec.sampleFrames p s' = some gs → ∀ f ∈ fs, ∀ g ∈ gs, src f.key = src g.key → f.key = g.key) ∧
+      (∃ so, ss.sources.elems[0]? = some so ∧ so.fullName = Str.ofString "root" ∧ so.inlined = false) := by
+  obtain ⟨rs, st, total, hres, inv, rfl⟩ := stacks_ok h
+  obtain ⟨hlen, hat⟩ := resolve_at hres
+  -- frames of a sample are known to the final `srcs` map
+  have hknown : ∀ s ∈ p.samples, ∀ fs, Spec.sampleFrames p s = some fs → ∀ f ∈ fs,
+      ∃ j, st.srcs.lookup f.key = some j := by
+    intro s hs fs hfs f hf
+    obtain ⟨i, hi, rfl⟩ := List.getElem_of_mem hs
+    obtain ⟨r, hr, _, hfr⟩ := hat i hi
+    have hr2 : r.2 = fs := by rw [hfs] at hfr; exact (Option.some.inj hfr).symm
+    have := inv.known r (List.mem_of_getElem? hr) f (hr2 ▸ hf)
+    cases hl : st.srcs.lookup f.key with
+    | none => simp [hl] at this
+    | some j => exact ⟨j, rfl⟩
+  refine ⟨fun k => (st.srcs.lookup k).getD 0, ?_, ?_, ?_, ?_⟩
+  · intro i hi
+    obtain ⟨r, hr, _, hfr⟩ := hat i hi
+    exact ⟨mkStack st.srcs r, r.2, by simp [result, Slice.lit, hr], hfr, rfl⟩
+  · intro s hs fs hfs f hf
+    obtain ⟨j, hj⟩ := hknown s hs fs hfs f hf
+    obtain ⟨s0, hs0, hd⟩ := inv.wf.desc _ _ hj
+    simp only [hj, Option.getD_some]
+    exact ⟨(inv.wf.rng _ _ hj).1, _, result_source_of hs0, hd.1, hd.2.1, hd.2.2⟩
+  · intro s hs s' hs' fs gs hfs hgs f hf g hg he
+    obtain ⟨j, hj⟩ := hknown s hs fs hfs f hf
+    obtain ⟨j', hj'⟩ := hknown s' hs' gs hgs g hg
+    simp only [hj, hj', Option.getD_some] at he
+    subst he
+    exact inv.wf.inj _ _ _ hj hj'
+  · obtain ⟨s0, hs0, hn⟩ := inv.root
+    exact ⟨_, result_source_of hs0, hn.1, hn.2⟩
+
+/-- Stack values sum to the signed total of the selected sample value. -/
+theorem values_sum (p : Profile) (idx : Nat) (ss : StackSet) (h : stacks p idx = .ok ss) :
+    (ss.stacks.elems.map (·.value)).sum = (p.samples.filterMap (fun s => s.values[idx]?)).sum := by
+  obtain ⟨rs, st, total, hres, _, rfl⟩ := stacks_ok h
+  rw [Spec.resolve, optMap_eq_some_iff] at hres
+  rw [values_of_resolve p idx p.samples rs hres]
+  simp [result, Slice.lit, List.map_map, Function.comp_def, mkStack]
+
+/-- Each source's self value is the sum of the values of the stacks it terminates. -/
+theorem self_spec (p : Profile) (idx : Nat) (ss : StackSet) (h : stacks p idx = .ok ss) :
+    ∀ (i : Nat) (s : Source), ss.sources.elems[i]? = some s →
+      s.self = ((ss.stacks.elems.filter (fun st => st.sources.elems.getLast? == some i)).map (·.value)).sum := by
+  obtain ⟨rs, st, total, _, inv, rfl⟩ := stacks_ok h
+  intro i s hs
+  obtain ⟨s0, hs0, rfl⟩ := result_source_get hs
+  exact (inv.self i s0 hs0).1
+
+/-- Each source's place index lists every stack containing it exactly once, at its outermost
+occurrence: `(a, b)` is listed iff stack `a` has the source at position `b` and at no earlier
+position; and the list is strictly increasing in the stack number (so no stack is listed twice). -/
+theorem places_complete_unique_first (p : Profile) (idx : Nat) (ss : StackSet) (h : stacks p idx = .ok ss) :
+    ∀ (i : Nat) (s : Source), ss.sources.elems[i]? = some s →
+      (∀ a b, (a, b) ∈ s.places.elems ↔
+        ∃ st, ss.stacks.elems[a]? = some st ∧ st.sources.elems[b]? = some i ∧
+          ∀ b', b' < b → st.sources.elems[b']? ≠ some i) ∧
+      List.Pairwise (fun x y : Nat × Nat => x.1 < y.1) s.places.elems := by
+  obtain ⟨rs, st, total, _, inv, rfl⟩ := stacks_ok h
+  intro i s hs
+  obtain ⟨s0, hs0, rfl⟩ := result_source_get hs
+  have hpl : (addP s0 (Spec.placesOf (rs.map (mkStack st.srcs)) i)).places.elems
+      = Spec.placesOf (rs.map (mkStack st.srcs)) i := by
+    simp [addP, (inv.self i s0 hs0).2, Slice.lit]
+  rw [hpl]
+  refine ⟨?_, placesFrom_pairwise i _ 0⟩
+  intro a b
+  rw [Spec.placesOf, mem_placesFrom]
+  simp only [result, Slice.lit, List.getElem?_map, Option.map_eq_some_iff, Nat.zero_add]
+  constructor
+  · rintro ⟨k, l, ⟨sk, hk, rfl⟩, rfl, hf⟩
+    exact ⟨sk, hk, (firstIdx_eq_some_iff i _ b).1 hf⟩
+  · rintro ⟨sk, hk, hf⟩
+    exact ⟨a, _, ⟨sk, hk, rfl⟩, rfl, (firstIdx_eq_some_iff i _ b).2 hf⟩
+
+/-- Every index the client dereferences is in range: a stack is never empty and starts at the
+root, its entries index `Sources`; a place `(a, b)` of source `i` indexes `Stacks` and that stack's
+`Sources`, and the slot it names holds `i`. -/
+theorem indices_in_range (p : Profile) (idx : Nat) (ss : StackSet) (h : stacks p idx = .ok ss) :
+    (∀ st ∈ ss.stacks.elems, st.sources.elems.head? = some 0 ∧
+        ∀ j ∈ st.sources.elems, j < ss.sources.elems.length) ∧
+    (∀ (i : Nat) (s : Source), ss.sources.elems[i]? = some s → ∀ pl ∈ s.places.elems,
+        ∃ st, ss.stacks.elems[pl.1]? = some st ∧ st.sources.elems[pl.2]? = some i) := by
+  refine ⟨?_, ?_⟩
+  · obtain ⟨rs, st, total, _, inv, rfl⟩ := stacks_ok h
+    intro sk hsk
+    have hr := inv.range sk hsk
+    simp only [result, Slice.lit, List.mem_map] at hsk
+    obtain ⟨x, _, rfl⟩ := hsk
+    exact ⟨rfl, by simpa [result, Slice.lit, List.length_mapIdx] using hr⟩
+  · intro i s hs pl hpl
+    obtain ⟨sk, h1, h2, _⟩ := ((places_complete_unique_first p idx ss h i s hs).1 pl.1 pl.2).1 hpl
+    exact ⟨sk, h1, h2⟩
+
+/-- No array of the stack set is nil (JSON `null`): `Stacks`, `Sources`, every `Stack.Sources`,
+every `StackSource.Places` — also for a profile without samples and for sources/stacks that
+stay empty. -/
+theorem arrays_nonnil (p : Profile) (idx : Nat) (ss : StackSet) (h : stacks p idx = .ok ss) :
+    ss.stacks.nonnil = true ∧ ss.sources.nonnil = true ∧
+    (∀ st ∈ ss.stacks.elems, st.sources.nonnil = true) ∧
+    (∀ s ∈ ss.sources.elems, s.places.nonnil = true) := by
+  obtain ⟨rs, st, total, _, _, rfl⟩ := stacks_ok h
+  refine ⟨rfl, rfl, ?_, ?_⟩
+  · intro sk hsk
+    simp only [result, Slice.lit, List.mem_map] at hsk
+    obtain ⟨x, _, rfl⟩ := hsk
+    rfl
+  · intro s hs
+    obtain ⟨i, hi⟩ := List.mem_iff_getElem?.1 hs
+    obtain ⟨s0, _, rfl⟩ := result_source_get hi
+    rfl
+
 end PV.Props.C17
